@@ -1,3 +1,567 @@
 package main
 
-func generate(repo, out string) error { return nil }
+import (
+	"fmt"
+	"go/ast"
+	"go/parser"
+	"go/token"
+	"os"
+	"path/filepath"
+	"sort"
+	"strings"
+)
+
+// ---------------------------------------------------------------------------------------------
+// Lock table (C07): for every method of the five in-memory types, which accesses to mutable
+// state it makes and whether they are dominated by Lock()/RLock() on that instance's mutex.
+// The extractor is syntactic and answers `unknown` (-> guarded := false) for shapes it does not
+// understand; it never guesses in favour of the code.
+
+var memTypes = map[string][]string{ // type -> mutable fields
+	"BloomFilter":    {"filter"},
+	"CuckooFilter":   {"buckets", "length"},
+	"CountMinSketch": {"matrix", "allSum"},
+	"HyperLogLog":    {"registers"},
+	"TopK":           {"heap", "sketch"},
+}
+
+// methods outside the property's call classes (constructors are functions, not methods)
+var exemptMethods = map[string]bool{"Import": true, "ReadFrom": true, "Equals": true, "GetBitSet": true}
+
+var writerCalls = map[string]bool{"add": true, "remove": true, "set": true, "unSet": true, "swap": true,
+	"insert": true, "insertMulti": true, "unmarshal": true, "readFrom": true,
+	"Update": true, "UpdateOnce": true, "UpdateString": true, "Push": true, "Pop": true, "Remove": true, "Fix": true, "Init": true}
+
+type access struct {
+	recv    string // identifier the access goes through
+	write   bool
+	guarded bool
+	excl    bool
+}
+
+type methodInfo struct {
+	typ, name string
+	recvName  string
+	params    map[string]string // ident -> mem type, for the receiver and parameters of mem types
+	accesses  []access
+	unknown   bool
+	calls     []helperCall // calls to other methods of mem types through tracked identifiers
+	selfLocks bool
+}
+
+type helperCall struct {
+	recv    string
+	typ     string
+	method  string
+	guarded bool
+	excl    bool
+}
+
+func typeName(e ast.Expr) string {
+	switch t := e.(type) {
+	case *ast.StarExpr:
+		return typeName(t.X)
+	case *ast.Ident:
+		return t.Name
+	}
+	return ""
+}
+
+// lockCall recognises X.lock.Lock() / RLock() / Unlock() / RUnlock(); returns (X, op)
+func lockCall(e ast.Expr) (string, string) {
+	call, ok := e.(*ast.CallExpr)
+	if !ok {
+		return "", ""
+	}
+	sel, ok := call.Fun.(*ast.SelectorExpr)
+	if !ok {
+		return "", ""
+	}
+	inner, ok := sel.X.(*ast.SelectorExpr)
+	if !ok || inner.Sel.Name != "lock" {
+		return "", ""
+	}
+	id, ok := inner.X.(*ast.Ident)
+	if !ok {
+		return "", ""
+	}
+	switch sel.Sel.Name {
+	case "Lock", "RLock", "Unlock", "RUnlock":
+		return id.Name, sel.Sel.Name
+	}
+	return "", ""
+}
+
+type lockState struct {
+	held map[string]string // ident -> "Lock" | "RLock"
+}
+
+func (m *methodInfo) isMutableSel(e ast.Expr) (string, bool) {
+	sel, ok := e.(*ast.SelectorExpr)
+	if !ok {
+		return "", false
+	}
+	id, ok := sel.X.(*ast.Ident)
+	if !ok {
+		return "", false
+	}
+	typ, ok := m.params[id.Name]
+	if !ok {
+		return "", false
+	}
+	for _, f := range memTypes[typ] {
+		if sel.Sel.Name == f {
+			return id.Name, true
+		}
+	}
+	return "", false
+}
+
+// scanExpr records the accesses inside an expression / simple statement
+func (m *methodInfo) scan(n ast.Node, st *lockState, lhsWrite bool) {
+	if n == nil {
+		return
+	}
+	ast.Inspect(n, func(x ast.Node) bool {
+		switch v := x.(type) {
+		case *ast.FuncLit:
+			// closures passed to a call (sort.Slice comparators) run synchronously in place;
+			// `go` statements are rejected in walk()
+			return true
+		case *ast.CallExpr:
+			if id, op := lockCall(v); id != "" {
+				_ = op
+				m.unknown = true // lock operation in an unexpected position
+				return false
+			}
+			if sel, ok := v.Fun.(*ast.SelectorExpr); ok {
+				// method call through a tracked identifier: X.helper(...)
+				if id, ok := sel.X.(*ast.Ident); ok {
+					if typ, tracked := m.params[id.Name]; tracked {
+						mode, held := st.held[id.Name]
+						m.calls = append(m.calls, helperCall{id.Name, typ, sel.Sel.Name, held, mode == "Lock"})
+					}
+				}
+				// call on a mutable field: X.filter.insert(...), X.buckets[i].add(...), heap.Push(&X.heap, ..)
+				w := writerCalls[sel.Sel.Name]
+				base := sel.X
+				for {
+					if ix, ok := base.(*ast.IndexExpr); ok {
+						base = ix.X
+						continue
+					}
+					break
+				}
+				if id, ok := m.isMutableSel(base); ok {
+					mode, held := st.held[id]
+					m.accesses = append(m.accesses, access{id, w, held, mode == "Lock"})
+				}
+				if w {
+					for _, a := range v.Args {
+						arg := a
+						if u, ok := arg.(*ast.UnaryExpr); ok {
+							arg = u.X
+						}
+						if id, ok := m.isMutableSel(arg); ok {
+							mode, held := st.held[id]
+							m.accesses = append(m.accesses, access{id, true, held, mode == "Lock"})
+						}
+					}
+				}
+			}
+		case *ast.SelectorExpr:
+			if id, ok := m.isMutableSel(v); ok {
+				typ := m.params[id]
+				if typ == "BloomFilter" {
+					// the interface value itself is only assigned by Import/ReadFrom (exempt); the bits
+					// behind it are reached through method calls (handled above)
+					return true
+				}
+				mode, held := st.held[id]
+				m.accesses = append(m.accesses, access{id, lhsWrite, held, mode == "Lock"})
+			}
+		}
+		return true
+	})
+}
+
+func isLockIf(s *ast.IfStmt) (string, string, bool) {
+	// if <cond> { X.lock.Lock(); defer X.lock.Unlock() }
+	if s.Else != nil || s.Init != nil || len(s.Body.List) != 2 {
+		return "", "", false
+	}
+	es, ok := s.Body.List[0].(*ast.ExprStmt)
+	if !ok {
+		return "", "", false
+	}
+	id, op := lockCall(es.X)
+	if id == "" || (op != "Lock" && op != "RLock") {
+		return "", "", false
+	}
+	ds, ok := s.Body.List[1].(*ast.DeferStmt)
+	if !ok {
+		return "", "", false
+	}
+	id2, op2 := lockCall(ds.Call)
+	if id2 != id || !strings.HasSuffix(op2, "Unlock") {
+		return "", "", false
+	}
+	return id, op, true
+}
+
+func (m *methodInfo) walk(stmts []ast.Stmt, st *lockState, top bool) {
+	for _, s := range stmts {
+		switch v := s.(type) {
+		case *ast.ExprStmt:
+			if id, op := lockCall(v.X); id != "" {
+				if !top {
+					m.unknown = true
+					continue
+				}
+				switch op {
+				case "Lock", "RLock":
+					st.held[id] = op
+					if id == m.recvName {
+						m.selfLocks = true
+					}
+				default:
+					delete(st.held, id)
+				}
+				continue
+			}
+			m.scan(v.X, st, false)
+		case *ast.DeferStmt:
+			if id, op := lockCall(v.Call); id != "" && strings.HasSuffix(op, "Unlock") {
+				if _, held := st.held[id]; !held || !top {
+					m.unknown = true
+				}
+				continue // stays held until the function returns
+			}
+			m.scan(v.Call, st, false)
+		case *ast.IfStmt:
+			if id, op, ok := isLockIf(v); ok && top {
+				st.held[id] = op
+				if id == m.recvName {
+					m.selfLocks = true
+				}
+				continue
+			}
+			m.scan(v.Init, st, false)
+			m.scan(v.Cond, st, false)
+			m.walk(v.Body.List, st, false)
+			if v.Else != nil {
+				if b, ok := v.Else.(*ast.BlockStmt); ok {
+					m.walk(b.List, st, false)
+				} else {
+					m.walk([]ast.Stmt{v.Else}, st, false)
+				}
+			}
+		case *ast.ForStmt:
+			m.scan(v.Init, st, false)
+			m.scan(v.Cond, st, false)
+			m.scan(v.Post, st, false)
+			m.walk(v.Body.List, st, false)
+		case *ast.RangeStmt:
+			m.scan(v.X, st, false)
+			m.walk(v.Body.List, st, false)
+		case *ast.BlockStmt:
+			m.walk(v.List, st, false)
+		case *ast.AssignStmt:
+			for _, l := range v.Lhs {
+				m.scan(l, st, true)
+			}
+			for _, r := range v.Rhs {
+				m.scan(r, st, false)
+			}
+		case *ast.IncDecStmt:
+			m.scan(v.X, st, true)
+		case *ast.SwitchStmt, *ast.TypeSwitchStmt, *ast.SelectStmt, *ast.GoStmt:
+			m.unknown = true
+		default:
+			m.scan(s, st, false)
+		}
+	}
+}
+
+func collectMethods(repo string) ([]*methodInfo, error) {
+	fset := token.NewFileSet()
+	files, _ := filepath.Glob(filepath.Join(repo, "*.go"))
+	var out []*methodInfo
+	for _, f := range files {
+		if strings.HasSuffix(f, "_test.go") || strings.HasPrefix(filepath.Base(f), "verif_") {
+			continue
+		}
+		af, err := parser.ParseFile(fset, f, nil, 0)
+		if err != nil {
+			return nil, err
+		}
+		for _, d := range af.Decls {
+			fd, ok := d.(*ast.FuncDecl)
+			if !ok || fd.Recv == nil || len(fd.Recv.List) == 0 || fd.Body == nil {
+				continue
+			}
+			rt := typeName(fd.Recv.List[0].Type)
+			if _, ok := memTypes[rt]; !ok {
+				continue
+			}
+			m := &methodInfo{typ: rt, name: fd.Name.Name, params: map[string]string{}}
+			if len(fd.Recv.List[0].Names) > 0 {
+				m.recvName = fd.Recv.List[0].Names[0].Name
+				m.params[m.recvName] = rt
+			}
+			for _, p := range fd.Type.Params.List {
+				pt := typeName(p.Type)
+				if _, ok := memTypes[pt]; ok {
+					for _, n := range p.Names {
+						m.params[n.Name] = pt
+					}
+				}
+			}
+			m.walk(fd.Body.List, &lockState{held: map[string]string{}}, true)
+			out = append(out, m)
+		}
+	}
+	sort.Slice(out, func(i, j int) bool {
+		if out[i].typ != out[j].typ {
+			return out[i].typ < out[j].typ
+		}
+		return out[i].name < out[j].name
+	})
+	return out, nil
+}
+
+func leanBool(b bool) string {
+	if b {
+		return "true"
+	}
+	return "false"
+}
+
+func genLockTable(repo string) (string, error) {
+	ms, err := collectMethods(repo)
+	if err != nil {
+		return "", err
+	}
+	byKey := map[string]*methodInfo{}
+	for _, m := range ms {
+		byKey[m.typ+"."+m.name] = m
+	}
+	// a helper is a method that touches mutable state without taking the lock itself: its accesses
+	// are charged to every call site (transitively, 3 rounds)
+	for round := 0; round < 3; round++ {
+		for _, m := range ms {
+			for _, hc := range m.calls {
+				h := byKey[hc.typ+"."+hc.method]
+				if h == nil || h.selfLocks || exemptMethods[h.name] {
+					continue
+				}
+				for _, a := range h.accesses {
+					if a.recv != h.recvName {
+						continue
+					}
+					m.accesses = append(m.accesses, access{hc.recv, a.write, hc.guarded, hc.excl})
+				}
+				if h.unknown {
+					m.unknown = true
+				}
+			}
+		}
+		for _, m := range ms { // avoid unbounded duplication
+			if len(m.accesses) > 400 {
+				m.accesses = m.accesses[:400]
+			}
+		}
+	}
+	var sb strings.Builder
+	sb.WriteString("/- GENERATED by /verif/extract from /repo's current sources on every run. DO NOT EDIT. -/\n")
+	sb.WriteString("import Gostatix.Model.Conc\nnamespace Gostatix.Generated\nopen Gostatix.Conc\n\n")
+	sb.WriteString("def lockTable : List MethodFact := [\n")
+	first := true
+	for _, m := range ms {
+		touches, writes, guarded, excl := false, false, true, true
+		for _, a := range m.accesses {
+			touches = true
+			if a.write {
+				writes = true
+			}
+			if !a.guarded {
+				guarded = false
+			}
+			if !a.excl {
+				excl = false
+			}
+		}
+		if m.unknown {
+			guarded = false
+		}
+		helper := touches && !m.selfLocks && !ast.IsExported(m.name)
+		exempt := exemptMethods[m.name] || helper
+		if !first {
+			sb.WriteString(",\n")
+		}
+		first = false
+		fmt.Fprintf(&sb, "  { typ := %q, method := %q, touchesMutable := %s, writesMutable := %s, guarded := %s, exclusive := %s, exempt := %s }",
+			m.typ, m.name, leanBool(touches), leanBool(writes), leanBool(guarded && touches), leanBool(excl && touches), leanBool(exempt))
+	}
+	sb.WriteString("\n]\n\nend Gostatix.Generated\n")
+	return sb.String(), nil
+}
+
+// ---------------------------------------------------------------------------------------------
+// Decoder table (C18): every fallible read in ReadFrom/readFrom/Import has its error tested and
+// returned before the next statement that reads or assigns.
+
+type readFact struct {
+	fn, call   string
+	propagated bool
+}
+
+func fallibleCallName(e ast.Expr) string {
+	call, ok := e.(*ast.CallExpr)
+	if !ok {
+		return ""
+	}
+	sel, ok := call.Fun.(*ast.SelectorExpr)
+	if !ok {
+		return ""
+	}
+	x := ""
+	if id, ok := sel.X.(*ast.Ident); ok {
+		x = id.Name
+	}
+	switch {
+	case x == "binary" && sel.Sel.Name == "Read":
+		return "binary.Read"
+	case x == "io" && sel.Sel.Name == "ReadFull":
+		return "io.ReadFull"
+	case x == "json" && sel.Sel.Name == "Unmarshal":
+		return "json.Unmarshal"
+	case sel.Sel.Name == "readFrom" || sel.Sel.Name == "ReadFrom":
+		return x + "." + sel.Sel.Name
+	}
+	return ""
+}
+
+func returnsErr(s ast.Stmt, errName string) bool {
+	ifs, ok := s.(*ast.IfStmt)
+	if !ok {
+		return false
+	}
+	cond, ok := ifs.Cond.(*ast.BinaryExpr)
+	if !ok || cond.Op != token.NEQ {
+		return false
+	}
+	id, ok := cond.X.(*ast.Ident)
+	if !ok || id.Name != errName {
+		return false
+	}
+	for _, b := range ifs.Body.List {
+		if _, ok := b.(*ast.ReturnStmt); ok {
+			return true
+		}
+	}
+	return false
+}
+
+func scanReads(fn string, stmts []ast.Stmt, out *[]readFact) {
+	for i, s := range stmts {
+		switch v := s.(type) {
+		case *ast.AssignStmt:
+			if len(v.Rhs) == 1 {
+				if name := fallibleCallName(v.Rhs[0]); name != "" {
+					errName := ""
+					if id, ok := v.Lhs[len(v.Lhs)-1].(*ast.Ident); ok {
+						errName = id.Name
+					}
+					ok := errName != "" && errName != "_" && i+1 < len(stmts) && returnsErr(stmts[i+1], errName)
+					*out = append(*out, readFact{fn, name, ok})
+				}
+			}
+		case *ast.IfStmt:
+			// if _, err := io.ReadFull(...); err != nil { return }
+			if as, ok := v.Init.(*ast.AssignStmt); ok && len(as.Rhs) == 1 {
+				if name := fallibleCallName(as.Rhs[0]); name != "" {
+					errName := ""
+					if id, ok := as.Lhs[len(as.Lhs)-1].(*ast.Ident); ok {
+						errName = id.Name
+					}
+					w := &ast.IfStmt{Cond: v.Cond, Body: v.Body}
+					*out = append(*out, readFact{fn, name, errName != "" && returnsErr(w, errName)})
+				}
+			}
+			scanReads(fn, v.Body.List, out)
+		case *ast.ForStmt:
+			scanReads(fn, v.Body.List, out)
+		case *ast.RangeStmt:
+			scanReads(fn, v.Body.List, out)
+		case *ast.BlockStmt:
+			scanReads(fn, v.List, out)
+		case *ast.ExprStmt:
+			if name := fallibleCallName(v.X); name != "" {
+				*out = append(*out, readFact{fn, name, false}) // result dropped
+			}
+		}
+	}
+}
+
+func genDecoderTable(repo string) (string, error) {
+	fset := token.NewFileSet()
+	files, _ := filepath.Glob(filepath.Join(repo, "*.go"))
+	var facts []readFact
+	memRecv := map[string]bool{"BloomFilter": true, "BitSetMem": true, "CuckooFilter": true, "BucketMem": true, "CountMinSketch": true, "HyperLogLog": true, "TopK": true}
+	for _, f := range files {
+		if strings.HasSuffix(f, "_test.go") {
+			continue
+		}
+		af, err := parser.ParseFile(fset, f, nil, 0)
+		if err != nil {
+			return "", err
+		}
+		for _, d := range af.Decls {
+			fd, ok := d.(*ast.FuncDecl)
+			if !ok || fd.Recv == nil || fd.Body == nil {
+				continue
+			}
+			rt := typeName(fd.Recv.List[0].Type)
+			if !memRecv[rt] {
+				continue
+			}
+			if fd.Name.Name != "ReadFrom" && fd.Name.Name != "readFrom" && fd.Name.Name != "Import" {
+				continue
+			}
+			scanReads(rt+"."+fd.Name.Name, fd.Body.List, &facts)
+		}
+	}
+	sort.Slice(facts, func(i, j int) bool { return facts[i].fn+facts[i].call < facts[j].fn+facts[j].call })
+	var sb strings.Builder
+	sb.WriteString("/- GENERATED by /verif/extract from /repo's current sources on every run. DO NOT EDIT. -/\n")
+	sb.WriteString("namespace Gostatix.Generated\n\nstructure ReadFact where\n  fn : String\n  call : String\n  propagated : Bool\n  deriving Repr, DecidableEq\n\n")
+	sb.WriteString("def decoderTable : List ReadFact := [\n")
+	for i, f := range facts {
+		if i > 0 {
+			sb.WriteString(",\n")
+		}
+		fmt.Fprintf(&sb, "  { fn := %q, call := %q, propagated := %s }", f.fn, f.call, leanBool(f.propagated))
+	}
+	sb.WriteString("\n]\n\nend Gostatix.Generated\n")
+	return sb.String(), nil
+}
+
+func generate(repo, out string) error {
+	lt, err := genLockTable(repo)
+	if err != nil {
+		return err
+	}
+	if err := writeIfChanged(filepath.Join(out, "LockTable.lean"), lt); err != nil {
+		return err
+	}
+	dt, err := genDecoderTable(repo)
+	if err != nil {
+		return err
+	}
+	if err := writeIfChanged(filepath.Join(out, "DecoderTable.lean"), dt); err != nil {
+		return err
+	}
+	_ = os.Stdout
+	return nil
+}
